@@ -89,9 +89,88 @@ def get_rel(env, a, b, kind, domain):
             if env.val.get(("bool", mk("call", IS_NAN, w))) is True:
                 return "un"
     if v not in env.val:
-        raise Undetermined(v, domain)
+        dom = domain
+        # one operand constant: the relation must be consistent with the relations already
+        # assumed between the same term and other constants (a total order plus "unordered")
+        ca, cb = tag(a) == "const", tag(b) == "const"
+        if ca != cb and (kind in ("f64", "f32") or kind in vg.INT_BITS):
+            x, c = (b, a) if ca else (a, b)
+            feas = feasible_vs_const(env, x, c, kind, domain)
+            # feas is expressed as rel(x, c); convert to the variable's orientation
+            x_first = (v[1] is x)
+            dom = tuple(r if x_first else FLIP[r] for r in feas)
+            if len(dom) == 1:
+                env.val[v] = dom[0]
+                r = dom[0]
+                return FLIP[r] if sw else r
+            if not dom:
+                dom = domain
+        raise Undetermined(v, dom)
     r = env.val[v]
     return FLIP[r] if sw else r
+
+def _cval(c, kind):
+    if kind in ("f64", "f32"):
+        return f64v(c)
+    if kind in vg.INT_BITS:
+        return vg.to_signed(kind, c[2])
+    return c[2]
+
+def feasible_vs_const(env, x, c, kind, domain):
+    """relations rel(x, c) consistent with what env already assumes about x versus other constants"""
+    cv = _cval(c, kind)
+    if cv != cv:
+        return ("un",) if "un" in domain else domain
+    lo, lo_strict, hi, hi_strict, eqv, nan = None, False, None, False, None, None
+    for var, r in env.val.items():
+        if var[0] != "rel" or var[3] != kind:
+            continue
+        if var[1] is x and tag(var[2]) == "const":
+            k, rr = _cval(var[2], kind), r
+        elif var[2] is x and tag(var[1]) == "const":
+            k, rr = _cval(var[1], kind), FLIP[r]
+        else:
+            continue
+        if k != k:
+            continue
+        if rr == "un":
+            nan = True
+        else:
+            nan = False if nan is None else nan
+            if rr == "lt":
+                if hi is None or k < hi or (k == hi and not hi_strict):
+                    hi, hi_strict = k, True
+            elif rr == "gt":
+                if lo is None or k > lo or (k == lo and not lo_strict):
+                    lo, lo_strict = k, True
+            elif rr == "eq":
+                eqv = k
+    isnan_known = env.val.get(("bool", mk("call", IS_NAN, x)))
+    if isnan_known is True:
+        nan = True
+    elif isnan_known is False and nan is None:
+        nan = False
+    if nan:
+        return ("un",) if "un" in domain else domain
+    out = []
+    for r in domain:
+        if r == "un":
+            if nan is None:
+                out.append(r)
+            continue
+        ok = True
+        if eqv is not None:
+            ok = (r == "lt" and eqv < cv) or (r == "eq" and eqv == cv) or (r == "gt" and eqv > cv)
+        else:
+            if r == "lt":      # x < cv must intersect (lo, hi)
+                ok = lo is None or lo < cv
+            elif r == "gt":
+                ok = hi is None or hi > cv
+            elif r == "eq":
+                ok = (lo is None or lo < cv or (lo == cv and not lo_strict)) and (hi is None or hi > cv or (hi == cv and not hi_strict))
+        if ok:
+            out.append(r)
+    return tuple(out)
 
 def eval_bool(c, env):
     t = tag(c)
@@ -124,6 +203,14 @@ def eval_bool(c, env):
                     return get_rel(env, x[2], x[3], pcmp_kind(x[1]), REL4) == oc
     v = ("bool", c)
     if v not in env.val:
+        if t == "call" and c[1] == IS_NAN and len(c) == 3:
+            # decided by any relation already assumed between the operand and a (non-NaN) constant
+            for var, r in env.val.items():
+                if var[0] == "rel" and var[3] in ("f64", "f32"):
+                    other = var[2] if var[1] is c[2] else (var[1] if var[2] is c[2] else None)
+                    if other is not None and tag(other) == "const" and f64v(other) == f64v(other):
+                        env.val[v] = (r == "un")
+                        return env.val[v]
         raise Undetermined(v, (True, False))
     return env.val[v]
 
@@ -212,6 +299,19 @@ def expand_ordering_leaves(tree, flip=False):
             return ("rel", v[2], v[3], pcmp_kind(v[1]), {r: canon(r) for r in REL4})
         return l
     return map_leaves(tree, f)
+
+def map_terms(tree, f):
+    """apply f to every term of a tree (conditions, relation operands, leaf values)"""
+    k = tree[0]
+    if k == "if":
+        return ("if", f(tree[1]), map_terms(tree[2], f), map_terms(tree[3], f))
+    if k == "switch":
+        return ("switch", f(tree[1]), tuple((v, map_terms(t, f)) for v, t in tree[2]), map_terms(tree[3], f))
+    if k == "rel":
+        return ("rel", f(tree[1]), f(tree[2]), tree[3], {r: map_terms(t, f) for r, t in tree[4].items()})
+    if k == "leaf":
+        return ("leaf", f(tree[1]), tuple((i, f(v)) for i, v in tree[2]))
+    return tree
 
 def map_leaves(tree, f):
     k = tree[0]
